@@ -23,9 +23,9 @@ func init() {
 			{"PEEP-NEGZERO", 1, rulePeepNegZero},
 			{"PEEP-DEPTH", 1, rulePeepDepth},
 			{"PEEP-SPLIT", 20, rulePeepSplit},
-			{"PEEP-GLUE", 408, rulePeepGlue},
-			{"PEEP-MEASURED", 36, rulePeepMeasured},
-			{"JOINSPLIT", 115, ruleJoinSplit},
+			{"PEEP-GLUE", 255, rulePeepGlue},
+			{"PEEP-MEASURED", 23, rulePeepMeasured},
+			{"JOINSPLIT", 100, ruleJoinSplit},
 		},
 	})
 }
